@@ -300,7 +300,7 @@ func reg2bin(beg, end int64, minShift, depth uint32) uint32 {
 			return t + uint32(offset)
 		}
 		s += nextBinShift
-		t -= 1 << (level * nextBinShift)
+		t -= 1 << ((level - 1) * nextBinShift)
 	}
 	return 0
 }
